@@ -407,20 +407,21 @@ def timeOfFields (year month day hour minute second : Nat) : Except E DateTime :
   | .error _ => .error .value
   | .ok dt => dateTimeFromUnix dt.secs
 
-/-- the array pattern of `UtcTime::decode_value` on the 13 octets read: `[y1, y2, …, s2, b'Z']` -/
-def utcOfBytes (b : List Nat) : Except E DateTime :=
-  let g := fun i => b.getD i 0
-  if g 12 ≠ 90 then .error .value else do
-    let yy ← decodeDecimal (g 0) (g 1)
-    let month ← decodeDecimal (g 2) (g 3)
-    let day ← decodeDecimal (g 4) (g 5)
-    let hour ← decodeDecimal (g 6) (g 7)
-    let minute ← decodeDecimal (g 8) (g 9)
-    let second ← decodeDecimal (g 10) (g 11)
-    let year := if yy ≥ 50 then yy + 1900 else yy + 2000
-    let dt ← timeOfFields year month day hour minute second
-    -- `UtcTime::try_from(DateTime)`: `year <= UtcTime::MAX_YEAR`
-    if dt.year ≤ 2049 then pure dt else .error .value
+/-- the array pattern of `UtcTime::decode_value` on the 13 octets read: `[y1, y2, …, s2, b'Z']`, anything else is
+a value error -/
+def utcOfBytes : List Nat → Except E DateTime
+  | [y1, y2, mo1, mo2, d1, d2, h1, h2, mi1, mi2, s1, s2, z] =>
+    if z ≠ 90 then .error .value else do
+      let yy ← decodeDecimal y1 y2
+      let month ← decodeDecimal mo1 mo2
+      let day ← decodeDecimal d1 d2
+      let hour ← decodeDecimal h1 h2
+      let minute ← decodeDecimal mi1 mi2
+      let second ← decodeDecimal s1 s2
+      let dt ← timeOfFields (if yy ≥ 50 then yy + 1900 else yy + 2000) month day hour minute second
+      -- `UtcTime::try_from(DateTime)`: `year <= UtcTime::MAX_YEAR`
+      if dt.year ≤ 2049 then pure dt else .error .value
+  | _ => .error .value
 
 /-- `UtcTime::decode` -/
 def dUtcTime : Dec DateTime := do
@@ -430,17 +431,18 @@ def dUtcTime : Dec DateTime := do
     Dec.lift (utcOfBytes bytes)
 
 /-- the array pattern of `GeneralizedTime::decode_value` on the 15 octets read -/
-def generalizedOfBytes (b : List Nat) : Except E DateTime :=
-  let g := fun i => b.getD i 0
-  if g 14 ≠ 90 then .error .value else do
-    let yhi ← decodeDecimal (g 0) (g 1)
-    let ylo ← decodeDecimal (g 2) (g 3)
-    let month ← decodeDecimal (g 4) (g 5)
-    let day ← decodeDecimal (g 6) (g 7)
-    let hour ← decodeDecimal (g 8) (g 9)
-    let minute ← decodeDecimal (g 10) (g 11)
-    let second ← decodeDecimal (g 12) (g 13)
-    timeOfFields (yhi * 100 + ylo) month day hour minute second
+def generalizedOfBytes : List Nat → Except E DateTime
+  | [y1, y2, y3, y4, mo1, mo2, d1, d2, h1, h2, mi1, mi2, s1, s2, z] =>
+    if z ≠ 90 then .error .value else do
+      let yhi ← decodeDecimal y1 y2
+      let ylo ← decodeDecimal y3 y4
+      let month ← decodeDecimal mo1 mo2
+      let day ← decodeDecimal d1 d2
+      let hour ← decodeDecimal h1 h2
+      let minute ← decodeDecimal mi1 mi2
+      let second ← decodeDecimal s1 s2
+      timeOfFields (yhi * 100 + ylo) month day hour minute second
+  | _ => .error .value
 
 /-- `GeneralizedTime::decode` -/
 def dGeneralizedTime : Dec DateTime := do
@@ -689,40 +691,29 @@ def paaPathLenBad (pl : Option Nat) : Bool :=
   | some p => p != 1
   | none => false
 
-/-- the requirement checks of `DacExtensions` / `PaiExtensions` / `PaaExtensions::decode_value` -/
+/-- the requirement checks of `DacExtensions` / `PaiExtensions` / `PaaExtensions::decode_value` on the parsed
+BasicConstraints and KeyUsage, in the order of the Rust code; every one of them fails with the same
+`ErrorKind::Failed`, so the sequence of early returns is the conjunction of the negated conditions -/
+def extReqOk (k : CertKind) (bcCrit ca : Bool) (pl : Option Nat) (kuCrit : Bool) (bits : Nat) : Bool :=
+  let caSignBits := KU_KEY_CERT_SIGN + KU_CRL_SIGN + KU_DIGITAL_SIGNATURE
+  match k with
+  | .dac =>
+    bcCrit && !ca && kuCrit && Nat.land bits KU_DIGITAL_SIGNATURE != 0 && bits == KU_DIGITAL_SIGNATURE
+  | .pai =>
+    bcCrit && ca && pl == some 0 && kuCrit && (Nat.land bits KU_KEY_CERT_SIGN != 0 && Nat.land bits KU_CRL_SIGN != 0) &&
+      Nat.land bits (65535 - caSignBits) == 0
+  | .paa =>
+    (bcCrit && ca) && !paaPathLenBad pl && kuCrit &&
+      (Nat.land bits KU_KEY_CERT_SIGN != 0 && Nat.land bits KU_CRL_SIGN != 0) && Nat.land bits (65535 - caSignBits) == 0
+
+/-- `Dac/Pai/PaaExtensions::decode_value` after `ParsedExtensionFields::parse`: the `ok_or(Failed)?` of the
+mandatory extensions (the authority key identifier is optional for a PAA only), then the requirement checks -/
 def extCheck (k : CertKind) (f : ExtFields) : Except E Exts :=
   match f.bc, f.ku, f.skid with
   | some (bcCrit, (ca, pl)), some (kuCrit, bits), some (_, skid) =>
-    let caSignBits := KU_KEY_CERT_SIGN + KU_CRL_SIGN + KU_DIGITAL_SIGNATURE
-    match k with
-    | .dac =>
-      match f.akid with
-      | none => .error .failed
-      | some (_, akid) =>
-        if !bcCrit then .error .failed
-        else if ca then .error .failed
-        else if !kuCrit then .error .failed
-        else if Nat.land bits KU_DIGITAL_SIGNATURE = 0 then .error .failed
-        else if bits ≠ KU_DIGITAL_SIGNATURE then .error .failed
-        else .ok { skid := skid, akid := some akid }
-    | .pai =>
-      match f.akid with
-      | none => .error .failed
-      | some (_, akid) =>
-        if !bcCrit then .error .failed
-        else if !ca then .error .failed
-        else if pl ≠ some 0 then .error .failed
-        else if !kuCrit then .error .failed
-        else if Nat.land bits KU_KEY_CERT_SIGN = 0 ∨ Nat.land bits KU_CRL_SIGN = 0 then .error .failed
-        else if Nat.land bits (65535 - caSignBits) ≠ 0 then .error .failed
-        else .ok { skid := skid, akid := some akid }
-    | .paa =>
-      if !bcCrit || !ca then .error .failed
-      else if paaPathLenBad pl then .error .failed
-      else if !kuCrit then .error .failed
-      else if Nat.land bits KU_KEY_CERT_SIGN = 0 ∨ Nat.land bits KU_CRL_SIGN = 0 then .error .failed
-      else if Nat.land bits (65535 - caSignBits) ≠ 0 then .error .failed
-      else .ok { skid := skid, akid := f.akid.map (·.2) }
+    if (k == .paa || f.akid.isSome) && extReqOk k bcCrit ca pl kuCrit bits then
+      .ok { skid := skid, akid := f.akid.map (·.2) }
+    else .error .failed
   | _, _, _ => .error .failed
 
 /-- `E::decode` for the three extension types: SEQUENCE, `read_nested`, parse, checks -/
@@ -931,10 +922,17 @@ def encExtension (oid : List Nat) (critical : Bool) (value : List Nat) : List Na
 /-- INTEGER of a value < 256 -/
 def encU8 (v : Nat) : List Nat := if v ≥ 0x80 then encTlv TAG_INTEGER [0, v] else encTlv TAG_INTEGER [v]
 
+/-- `pathLenConstraint INTEGER OPTIONAL` -/
+def encPathLen : Option Nat → List Nat
+  | some p => encU8 p
+  | none => []
+
+/-- `BasicConstraints ::= SEQUENCE { cA BOOLEAN DEFAULT FALSE, pathLenConstraint INTEGER OPTIONAL }` -/
+def encBasicConstraints (ca : Bool) (pl : Option Nat) : List Nat :=
+  encTlv TAG_SEQUENCE ((if ca then encBool true else []) ++ encPathLen pl)
+
 def encExt : Ext → List Nat
-  | .basicConstraints critical ca pl =>
-    encExtension OID_BASIC_CONSTRAINTS critical
-      (encTlv TAG_SEQUENCE ((if ca then encBool true else []) ++ (match pl with | some p => encU8 p | none => [])))
+  | .basicConstraints critical ca pl => encExtension OID_BASIC_CONSTRAINTS critical (encBasicConstraints ca pl)
   | .keyUsage critical unused bytes => encExtension OID_KEY_USAGE critical (encBitString unused bytes)
   | .subjectKeyId critical k => encExtension OID_SUBJECT_KEY_ID critical (encOctets k)
   | .authorityKeyId critical k => encExtension OID_AUTHORITY_KEY_ID critical (encTlv TAG_SEQUENCE (encTlv 0x80 k))
@@ -951,7 +949,6 @@ structure CertSpec where
   subject : List Attr
   pk : List Nat
   exts : List Ext
-  sigAlgParams : List Nat        -- raw DER after the outer signature algorithm OID (normally empty)
   signature : List Nat           -- content of the signature BIT STRING (DER ECDSA-Sig-Value)
 deriving Repr, DecidableEq
 
